@@ -239,6 +239,20 @@ def last_mut_invariant(ctx, prog, flows, root, groups):
             if not any(n[0] == "CONST" and "\"edge\"" in n[1] for n in val):
                 continue
             n_defs += 1
+            # (3a) the marker is set AFTER a successful push: no path from the entry reaches this assignment
+            # without one (and the vector never shrinks, (4))
+            seen = set()
+            st = [0]
+            while st:
+                x = st.pop()
+                if x in seen:
+                    continue
+                seen.add(x)
+                for y in b.succ(x):
+                    if (x, y) not in cont_edges:
+                        st.append(y)
+            if cont_edges and dbb not in seen:
+                continue
             seen = set()
             st = [dbb]
             while st:
@@ -303,6 +317,27 @@ def has_cycle_avoiding(body, avoid):
     return None
 
 
+def pat_str_lit(pat):
+    """the string literal a pattern tests: `"x"`, `Some("x")`, `Ok("x")`, `&"x"` (one literal under single-field
+    wrappers)"""
+    for _ in range(4):
+        if not isinstance(pat, dict):
+            return None
+        if "lit" in pat:
+            return pat["lit"].get("str")
+        subs = pat.get("subs")
+        if isinstance(subs, list) and len(subs) == 1:
+            pat = subs[0]
+            continue
+        for k in ("sub", "ref", "box", "deref"):
+            if k in pat:
+                pat = pat[k]
+                break
+        else:
+            return None
+    return None
+
+
 def directed_polarity(root, fl):
     """{literal: bool} from the byte-wise / str-eq decision tree controlling `directed = const`"""
     dl = root.locals_named("directed")
@@ -325,14 +360,14 @@ def directed_polarity(root, fl):
     hir = root.item.get("hir") or {}
     # typed HIR: match arms with string literal patterns whose bodies assign directed
     for m in hir.get("matches", []):
-        lits = [a for a in m["arms"] if isinstance(a["pat"], dict) and "lit" in a["pat"] and "str" in a["pat"]["lit"]]
+        lits = [a for a in m["arms"] if pat_str_lit(a["pat"]) is not None]
         if len(lits) < 2:
             continue
-        names = {a["pat"]["lit"]["str"] for a in lits}
+        names = {pat_str_lit(a["pat"]) for a in lits}
         if not {"directed", "undirected"} <= names:
             continue
         for a in lits:
-            lit = a["pat"]["lit"]["str"]
+            lit = pat_str_lit(a["pat"])
             sp = a["body_span"]
             # constant assignments to `directed` whose span lies inside this arm body
             for s in root.stmts():
